@@ -54,7 +54,12 @@ func runC16(r *rt.Run, tier string) {
 	t := r.T
 	loadKeys()
 	r.EnableMapOrder(true)
+	debDataFirst = t.Bool(1, 4, "c16.datafirst")
 	p := genDeb(t, r, t.Draw(25, "deb.pair"), c16Codecs)
+	if debDataFirst {
+		r.Probe("data-member-stored-before-control-member")
+	}
+	debDataFirst = false
 	role := c16Roles[t.Draw(3, "c16.role")]
 	signerIdx := t.Weighted([]int{3, 3, 1}, "c16.signer")
 	signer := pgpKeys[signerIdx]
@@ -585,5 +590,5 @@ func init() {
 		},
 		Assumptions: []string{"x/crypto/openpgp both makes and verifies the signatures: a bug common to both directions is invisible", "test keys are committed fixtures (key generation is not reproducible in Go); signing with a fixed signature time is byte-deterministic"},
 	})
-	propProbes["C16"] = []string{"keyring-starts-with-an-expired-key", "one-package-checked-by-concurrent-callers", "decoy-whose-header-read-fails", "tampered-twin-verified-concurrently", "debian-binary-with-further-lines", "loads-interleaved", "repeated-checks-on-one-package", "verification-succeeded", "payload-read-after-verification", "decoy-with-identical-name"}
+	propProbes["C16"] = []string{"data-member-stored-before-control-member", "keyring-starts-with-an-expired-key", "one-package-checked-by-concurrent-callers", "decoy-whose-header-read-fails", "tampered-twin-verified-concurrently", "debian-binary-with-further-lines", "loads-interleaved", "repeated-checks-on-one-package", "verification-succeeded", "payload-read-after-verification", "decoy-with-identical-name"}
 }
